@@ -13,7 +13,7 @@ from .. import fsmon, model, sig
 
 PROP = "C16"
 LEVEL = "exploration"
-MONITORS = ["roundtrip_equal", "raise_means_nothing_copied", "source_readonly", "export_contained", "import_contained",
+MONITORS = ["import_with_callable_schema", "roundtrip_equal", "raise_means_nothing_copied", "source_readonly", "export_contained", "import_contained",
             "map_injective_prefix_free", "existing_job_untouched", "schema_string_types"]
 RULE = (
     "Projects of 0-12 jobs over state point families built to collide textually (a in 1/10/100, 1/1.0/'1', "
@@ -51,6 +51,7 @@ FAMILIES = {
     "leafnode": [{"name": "sim"}, {"name": "sim.old"}, {"name": "sim/final"}, {"name": "sim-1"}, {"name": "sim/final/x"},
                  {"name": "sim+"}],
     "lists": [{"a": [1, 2]}, {"a": [1, 3]}, {"a": [1]}],
+    "withempty": [{}, {"a": 1}, {"a": 1, "b": 2}, {"b": 0}, {"a": 0}],
 }
 SCHEMA_FAMILIES = {
     # family -> (path spec, schema string)
@@ -80,9 +81,10 @@ def gen_cases(ctx):
             chosen = rng.sample(range(len(sps)), rng.randint(2, len(sps)))
             path = SCHEMA_FAMILIES[fam][0]
         strip = rng.random() < 0.5
+        table = mode == "roundtrip" and rng.random() < 0.25
         if ctx.take(i):
             yield {"family": fam, "jobs": sorted(chosen), "target": target, "path": path, "mode": mode,
-                   "strip_sp_files": strip}
+                   "strip_sp_files": strip, "table_schema": table}
 
 
 def path_arg(spec):
@@ -209,6 +211,18 @@ def run_case(ctx, case):
                     fn = os.path.join(target, rel, model.SP_FILE)
                     if os.path.exists(fn):
                         os.remove(fn)
+        if case.get("table_schema") and all(os.path.normpath(rel) not in ("", ".") for rel in mapping.values()):
+            # a correct user-written schema function for exactly this layout: exported path -> state point
+            table = {os.path.normpath(rel): copy.deepcopy(src.open_job(id=jid).statepoint())
+                     for jid, rel in ((os.path.basename(os.path.normpath(k)), v) for k, v in mapping.items())}
+
+            def schema(path, _table=table):
+                p = os.path.normpath(path)
+                for rel, sp in _table.items():
+                    if p == rel or p.endswith(os.sep + rel):
+                        return copy.deepcopy(sp)
+                return None
+            ctx.monitor("import_with_callable_schema")
         pre_id = None
         if case["mode"] == "existing" and sps:
             pre = dst.open_job(copy.deepcopy(sps[0])).init()
